@@ -61,6 +61,7 @@ def cells(tier):
                     'follow': follow})
     out.append({'kind': 'stls_client', 't': 4})
     out.append({'kind': 'stls_client_helo'})
+    out.append({'kind': 'auth_seq'})
     out.append({'kind': 'stls_seq', 't': 2})
     for shape in range(len(SHAPES)):
         # 3 garbage bytes can never decode to a PLAIN response; 4 could, and
@@ -362,6 +363,53 @@ SHAPES = ['plain-initial', 'plain-challenge', 'login', 'cram',
           'bad-b64-challenge', 'unknown-mech', 'no-arg', 'garbage-mech',
           'plain-extra-space', 'lowercase', 'plain-nonutf8',
           'login-nonutf8', 'plain-challenge-nonutf8']
+
+
+def run_auth_seq(cell):
+    """a second AUTH after a successful one is refused, whatever (EHLO,
+    HELO, RSET, NOOP, a whole transaction) came in between"""
+    from slimta.smtp.server import Server
+    from slimta.smtp import ConnectionLost
+    user, pw = CREDS[0]
+    mids = [[], [b'EHLO again'], [b'HELO again'], [b'RSET'], [b'NOOP'],
+            [b'MAIL FROM:<a@b>', b'RSET', b'EHLO third']]
+    mid = mids[api.choice('between', len(mids))]
+    second = [b'AUTH PLAIN ' + plain_resp(user, pw), b'AUTH LOGIN',
+              b'AUTH CRAM-MD5'][api.choice('second', 3)]
+    lines = [b'EHLO first', b'AUTH PLAIN ' + plain_resp(user, pw)] + mid + \
+        [second, b'NOOP']
+    handlers = TlsRec(lambda name: None, None)
+    script = [ln + b'\r\n' for ln in lines]
+    plain_sock = FakeSocket(script, eof=True)
+    sock = fake_tls_class()(plain_sock, script)
+    server = Server(sock, handlers, ('10.0.0.1', 1234),
+                    auth=[b'PLAIN', b'LOGIN', b'CRAM-MD5'])
+    ended = 'returned'
+    try:
+        server.handle()
+    except ConnectionLost:
+        ended = 'connection-lost'
+    except api.Unsupported:
+        raise
+    except Exception as e:
+        ended = 'raised:' + type(e).__name__
+    info = dict(between=[m.decode() for m in mid],
+                second=second.decode().split()[1])
+    codes = split_replies(sock)[1:]
+    api.observe('codes', codes)
+    auth_cb = [t for t in handlers.trace if t[0] == 'AUTH']
+    api.prove(len(auth_cb) == 1, 'AUTH-callback-when-not-permitted',
+              n=len(auth_cb), **info)
+    # replies: EHLO, AUTH(235), one per line in between, second AUTH, NOOP
+    k = 2 + len(mid)
+    if api.prove(len(codes) > k, 'no-reply', ended=ended, **info):
+        api.prove(codes[1] == b'235', 'AUTH-reply-differs', want='235',
+                  **info)
+        # (503, or 500 after a HELO, which withdraws the AUTH extension)
+        api.prove(codes[k][0:1] == b'5', 'AUTH-out-of-sequence-not-503',
+                  got=bytes(codes[k]).decode() if isinstance(codes[k], bytes)
+                  else '?', **info)
+    api.prove(server.authed, 'authenticated-state-lost', **info)
 
 
 def run_auth(cell):
